@@ -39,6 +39,11 @@ func c11Bases() map[string]Stream {
 	for _, s := range readerStreams(1) {
 		m[s.Name] = s
 	}
+	// streams from fixed operation walks (every operation kind, trained contexts): a corrupted byte
+	// in the range-coded data steers the decoder through all codecs with unusual values
+	for _, w := range walkStreams() {
+		m[w.Name] = w
+	}
 	return m
 }
 
@@ -307,6 +312,10 @@ func runC11(r *core.Run) {
 	// (b) point mutations
 	seeds := []string{"lib-xz-1block-crc64", "lib-xz-3blocks-crc32", "ref-xz-allchunks-crc32-sizes", "lib-xz-nocheck", "lib-lzma2-flushes", "lib-lzma2-raw+lzma", "ref-lzma2-allchunks", "lib-lzma-eos", "lib-lzma-size", "lib-lzma-size+eos", "ref-lzma-lc8lp4pb4-size", "lib-lzma-size0", "lib-lzma-size0+eos", "lib-lzma-empty-eos"}
 	seeds = append(seeds, "ref-xz-2blocks-crc64-extrapad", "lib-xz-sha256-2blocks", "lib-lzma2-bt-lc0lp4", "ref-lzma-lc8lp4pb4-eos") // both tiers
+	seeds = append(seeds, "walk-lzma2", "walk-lzma")
+	if th {
+		seeds = append(seeds, "walk-xz") // (a flipped payload byte in .xz is mostly stopped by the block check)
+	}
 	menu := []byte{0x00, 0x01, 0x7F, 0x80, 0xFF, 0x21}
 	for _, nm := range seeds {
 		s, ok := bases[nm]
